@@ -1,7 +1,14 @@
 import TracklibVerif.Model.Cinematics
 import TracklibVerif.Model.CinematicsTab
+import TracklibVerif.Model.CinematicsCoords
 import TracklibVerif.Drv.Util
-/-! Driver handler for C17. Two commands:
+/-! Driver handler for C17. Three commands:
+
+  coords <cls N|G|X> <xs> <ys> <zs> <ts> <feats> <ops>     one track of one coordinate class (`Model/CinematicsCoords.lean`), at `Float`
+     cls    : N = ENUCoords (E,N,U), G = GeoCoords (lon°, lat°, hgt), X = ECEFCoords (X,Y,Z)
+     ops    : a word over {a computeAbsCurv, s estimate_speed, c computeCurvAbsBetweenTwoPoints, d addAnalyticalFeature(ds,"ds"),
+              o [track[i].distance2DTo(track[i+1]) for i in range(n-1)]}
+     reply  : `<outcome of each op joined by |> <feature table afterwards>`; outcome = `c<v,…>` | `n<v>` | `none` | `err:refused|attr|index`
 
   world <mode f|q> <pool> <ops>      a history on observations shared between tracks (`Model/CinematicsTab.lean`)
      pool   : observations `x,y,z,Y,M,D,h,m,s,ms` joined by `;` — they form track 0
@@ -69,6 +76,58 @@ def run (sqrt : α → α) (rd : String → Option α) (sh : α → String) (ok 
         s!"{r} {f} {showList sh (t.xy.map Prod.fst)} {showList sh (t.xy.map Prod.snd)} {showList sh t.ts}"
   | _, _, _, _ => "bad-request"
 end generic
+
+/-! ### one track per coordinate class -/
+section coords
+open TV.CinCoords
+
+def cls? (s : String) : Option Cls :=
+  if s == "N" then some .enu else if s == "G" then some .geo else if s == "X" then some .ecef else none
+
+def showGErr : GErr → String
+  | .refused => "err:refused" | .attr => "err:attr" | .index => "err:index"
+
+def FT := TV.Geo.floatTrig
+
+def showOutcome : Except GErr (Option (Col Float)) → String
+  | .error e => showGErr e
+  | .ok none => "none"
+  | .ok (some c) => "c" ++ showCol showFloat c
+
+/-- `[track[i].distance2DTo(track[i+1]) for i in range(n-1)]` -/
+def obsDists (t : CTrack Float) : List Nat → List Float → Except GErr (List Float)
+  | [], acc => .ok acc.reverse
+  | i :: is, acc =>
+    match obsDistC FT t i (i + 1) with
+    | none => .error .index
+    | some (.error e) => .error e
+    | some (.ok d) => obsDists t is (d :: acc)
+
+def runCoords : List Char → CTrack Float → List String → Option (CTrack Float × List String)
+  | [], t, acc => some (t, acc.reverse)
+  | 'a' :: r, t, acc => let (o, t') := computeAbsCurvC FT t; runCoords r t' (showOutcome o :: acc)
+  | 's' :: r, t, acc => let (o, t') := estimateSpeedC FT t; runCoords r t' (showOutcome o :: acc)
+  | 'd' :: r, t, acc => let (o, t') := dsFeatureC FT t; runCoords r t' (showOutcome o :: acc)
+  | 'c' :: r, t, acc =>
+    runCoords r t ((match curvAbsC FT t with | .error e => showGErr e | .ok v => "n" ++ showFloat v) :: acc)
+  | 'o' :: r, t, acc =>
+    runCoords r t ((match obsDists t (List.range (t.tr.xy.length - 1)) [] with
+      | .error e => showGErr e | .ok l => "c" ++ showList showFloat l) :: acc)
+  | _ :: _, _, _ => none
+
+def coords (cls xs ys zs ts feats ops : String) : String :=
+  match cls? cls, floatList? xs, floatList? ys, floatList? zs, floatList? ts, feats? float? feats with
+  | some c, some X, some Y, some Z, some T, some F =>
+    if X.length != Y.length || X.length != Z.length || X.length != T.length || X.isEmpty
+        || F.any (fun p => p.2.length != X.length) then "bad-request"
+    else
+      match runCoords ops.toList { cls := c, zs := Z, tr := { xy := X.zip Y, ts := T, feats := F } } [] with
+      | none => "bad-request"
+      | some (t, rets) =>
+        let f := joinWith ";" (t.tr.feats.map (fun p => p.1 ++ ":" ++ showCol showFloat p.2))
+        s!"{joinWith "|" rets} {f}"
+  | _, _, _, _, _, _ => "bad-request"
+end coords
 
 /-! ### histories on shared observations -/
 section world
@@ -199,6 +258,7 @@ def handle (cmd : String) (args : List String) : String :=
     if mode == "f" then world (TV.CinTab.optG Float.sqrt Float.ofNat Float.isNaN) float? showFloat (fun _ => true) pool ops
     else if mode == "q" then world (TV.CinTab.optG ratSqrt (fun n => (n : Rat)) (fun _ => false)) rat? showRat squaresOK pool ops
     else "bad-request"
+  | "coords", [cls, xs, ys, zs, ts, feats, ops] => coords cls xs ys zs ts feats ops
   | "run", [mode, xs, ys, ts, feats, ops] =>
     if mode == "f" then run Float.sqrt float? showFloat (fun _ => true) xs ys ts feats ops
     else if mode == "q" then run ratSqrt rat? showRat allSquares xs ys ts feats ops
